@@ -13,10 +13,10 @@ use std::process::{Command, Stdio};
 pub fn meta() -> Meta {
     Meta {
         id: "C16",
-        rule: "seeded programs from the grammar generator (every instruction form and operand shape, all numeric values incl. boundaries, labels of any length and case, comments with arbitrary printable and Unicode content, long .DB/.DW lists exceeding the pad width, 0-40 labels, header comments) are parsed, rendered with Display and parsed again; the second AST must equal the first, line by line; the same for the translator's listing lines; and for the program pane of the real interactive session: sampled programs are loaded one after the other through the `load` command (headless driver), alternately under their own file name and under one file name whose content is replaced between the loads, and after every load the pane's lines must parse back to the program that was just loaded. distinct_nontrivial counts distinct (instruction shape, has-comment) line classes that went through the round trip",
+        rule: "seeded programs from the grammar generator (every instruction form and operand shape, all numeric values incl. boundaries, labels of any length and case, comments with arbitrary printable and Unicode content, long .DB/.DW lists exceeding the pad width, 0-40 labels, header comments, an eighth of them with a name defined twice) are parsed, rendered with Display and parsed again; the second AST must equal the first, line by line; the same for the translator's listing lines; and for the program pane of the real interactive session: sampled programs are loaded one after the other through the `load` command (headless driver), alternately under their own file name and under one file name whose content is replaced between the loads, and after every load the pane's lines must parse back to the program that was just loaded. distinct_nontrivial counts distinct (instruction shape, has-comment) line classes that went through the round trip",
         exhaustive: false,
         assumptions: vec!["the rendering under test is `format!(\"{}\", asm)`: header line plus one Display-rendered line per source line (the per-line rendering is what the TUI program pane and byte-code listings show)"],
-        floors: vec![("round_trips", 20_000), ("lines_round_tripped", 300_000), ("lines_with_unicode_comment", 5_000), ("long_data_lines", 500), ("programs_with_40_labels", 100), ("listing_round_trips", 5_000), ("pane_loads", 100), ("pane_reloads_of_an_edited_file", 40)],
+        floors: vec![("round_trips", 20_000), ("lines_round_tripped", 300_000), ("lines_with_unicode_comment", 5_000), ("long_data_lines", 500), ("programs_with_40_labels", 100), ("listing_round_trips", 5_000), ("programs_with_a_name_defined_twice", 10_000), ("pane_loads", 100), ("pane_reloads_of_an_edited_file", 40)],
     }
 }
 
@@ -222,7 +222,25 @@ pub fn run(ctx: &Ctx) -> Report {
         let mut for_pane: Vec<String> = vec![];
         for k in 0..200 {
             opts.max_lines = if k % 10 == 0 { 80 } else { 30 };
-            let g = asmtext::program(&mut rng, &opts);
+            let mut g = asmtext::program(&mut rng, &opts);
+            if k % 8 == 5 {
+                // a name defined a second time (same spelling, other case, label after .EQU): which
+                // definition a reference gets is nobody's business here, but every line must still be
+                // rendered and listed
+                let n = format!("again_{}", rng.below(30));
+                let a = match rng.below(3) {
+                    0 => format!("{}:", n),
+                    1 => format!("{}: ; first {}", n.to_uppercase(), n),
+                    _ => format!(".EQU {} {}", n, rng.u8()),
+                };
+                let b = match rng.below(3) {
+                    0 => format!("{}: ; second", n),
+                    1 => format!("{}:", n.to_uppercase()),
+                    _ => format!("{}:;;; x ;", n),
+                };
+                g.text.push_str(&format!("\n{}\n NOP\n{}\n JR {}\n", a, b, n));
+                rep.inc("programs_with_a_name_defined_twice");
+            }
             rep.evaluations += 1;
             let asm = match catch(|| AsmParser::parse(&g.text)) {
                 Ok(Ok(a)) => a,
